@@ -206,11 +206,14 @@ def history_events(chk, cx, fsx, reqs, eid0, dask_every=4):
         if out[0] == "ok" and n > 0 and j % 4 == 0:
             evs += mutation_steps(cx, fsx, r, o, n, out, j, eid0 + len(evs))
         if out[0] != "ok" and (j % dask_every == 1 % dask_every or (n == 0 and o >= fsx.outlen)):
-            # a request the eager read refuses (or fails): the Dask read must do the same - when it is
-            # called or at the latest when it is computed
+            # a request the eager read refuses: the Dask read is the same request and must be refused when it
+            # is made (a lazy signal stamped time_at(offset) for samples that do not exist is not a refusal)
             try:
                 zd = r.dask_read(typed(o, at), typed(n, at)) if j % 2 else r.read(typed(o, at), typed(n, at), use_dask=True)
-                arr = zd.data.compute()
+                try:
+                    arr = zd.data.compute()
+                except Exception:  # noqa
+                    arr = np.zeros((0,) + tuple(zd.data.shape[1:]), dtype=zd.data.dtype)
                 ev = rl.read_event(fsx, o, n, ("ok", _Computed(arr, zd.start_time, zd.sample_rate)), eid=eid0 + len(evs), how="dask",
                                    flags={"dask_refuses_like_eager": False}, max_elems=40000)
             except Exception as e:  # noqa
